@@ -140,7 +140,16 @@ def typestate_axle(chk, prog, sim, maxn):
                 ok = False
             else:
                 v = sim.final_value(leaf.state, leaf.value)
-                arr = v.fields[0] if isinstance(v, Struct) and v.fields else None
+                def first_array(x):      # the terminal cells, wherever the device keeps them (a private newtype / sub-struct)
+                    if isinstance(x, Array):
+                        return x
+                    if isinstance(x, Struct):
+                        for f_ in x.fields:
+                            r_ = first_array(f_)
+                            if r_ is not None:
+                                return r_
+                    return None
+                arr = first_array(v)
                 if not isinstance(arr, Array) or len(arr.elems) != n or any(not (isinstance(e, Opaque) and e.kind == "RefCell") for e in arr.elems):
                     chk.violation("C16.T", "Axle::new:shape", "Axle::new with N=%d does not produce %d initialised terminal cells: %r" % (n, n, v), fn=fn["pretty"])
                     ok = False
